@@ -12,6 +12,9 @@ func main() {
 	R := vlib.Init()
 	prop := *vlib.Prop
 	switch prop {
+	case "CONF":
+		runConformance()
+		return
 	case "C06", "C07", "C16":
 		vsched.TrackStates = false
 		runProto(R, prop)
